@@ -27,6 +27,7 @@ RULES = {
     "C07.R5": lambda ctx: decoderrules.range_reader(ctx, "C07.R5"),
     "C07.R5b": lambda ctx: decoderrules.rmi_reader(ctx, "C07.R5b"),
     "C07.R6": lambda ctx: encrules.rmi_codec(ctx, "C07.R6"),
+    "C07.R0": lambda ctx: __import__("rules.foundations", fromlist=["x"]).accessors(ctx, "C07.R0", ['types::Token']),
     "C07.R7": r7,
 }
 
